@@ -211,6 +211,8 @@ def u_enter_exit(I):
         check_outcome(I, out, raises={}, returns=lambda r: [
             ('a syntax error restores (position, line, column) of entry and drops the frame', z3.And(stack_is(st, [below]), same_pos(pos(st), entry))),
             ('the error is recorded: has_error set, current_error is the (merged) error raised', z3.BoolVal(st.fields['has_error'] is True and st.fields['current_error'] is e)),
+            ('the recorded error - merged with the one recorded before (RINGSyntaxError.update, interpreted) - still carries the line and column of ONE index of the text',
+             z3.Or([z3.And(0 <= w, w <= N, at_index(e.fields['lineno'], e.fields['colno'], w)) for w in err_witnesses(I)]) if err_witnesses(I) else z3.BoolVal(False)),
             ('the syntax error is suppressed (backtracking)', z3.BoolVal(r is True))])
     else:
         e = I.exc('ValueError', 'x').obj
